@@ -352,7 +352,21 @@ def run_history(ctx, items, plan, mode, case):
     try:
         init = {i: items[i]['descr'] for i in plan["init"]}
         try:
-            conf = ColorsConfig(nest(init), no_color=(mode == "no_color"))
+            if mode == "global" and plan.get("via_app_configure"):
+                # the application's start-up helper builds the explicit configuration from one or several dictionaries
+                # of amendments and installs it as the global one
+                import types
+                from ak.cli_tools import std_app_configure
+                keys = sorted(init)
+                cut = len(keys) // 2 if plan["via_app_configure"] == "list" else len(keys)
+                parts = [nest({k: init[k] for k in keys[:cut]}), nest({k: init[k] for k in keys[cut:]})]
+                args = types.SimpleNamespace(color="always", _no_log=True)
+                std_app_configure(args, syntax_amends=parts if plan["via_app_configure"] == "list" else parts[0])
+                conf = akcolor.get_global_colors_config()
+                made_global = True
+                ctx.count("configurations_built_by_the_start_up_helper")
+            else:
+                conf = ColorsConfig(nest(init), no_color=(mode == "no_color"))
         except Exception as err:
             fail("valid-configuration-rejected", {"type": type(err).__name__, "msg": str(err)[:200], "init": init})
         registered |= set(init)
@@ -525,7 +539,9 @@ def make_plan(rng, items, mode):
         swap = [i for i in pool if items[i]['initial_only'] or rng.random() < 0.4]
     return {"init": init, "batches": batches, "early_palette": rng.random() < 0.5, "swap": swap,
             "plain_global_palette": rng.random() < 0.3, "stable_no_color": rng.random() < 0.7,
-            "same_class_names": rng.random() < 0.5, "copy_probe": rng.random() < 0.4}
+            "same_class_names": rng.random() < 0.5, "copy_probe": rng.random() < 0.4,
+            "via_app_configure": rng.choice([None, None, "dict"])}       # (a LIST of amendment dictionaries, which the
+            # helper's doc string also offers, is refused by the unchanged code with a TypeError: outside C14, see DESIGN)
 
 
 def long_chain_case(ctx, n=1500):
